@@ -38,9 +38,6 @@ theorem forestEv_eq (e : Env) (nil : Bool) (ts : List Tree) :
   | nil => simp [forestEv]
   | cons t ts ih => simp [forestEv, ih]
 
-theorem le_of_max_le_left {a b c : Nat} (h : max a b ≤ c) : a ≤ c := by omega
-theorem le_of_max_le_right {a b c : Nat} (h : max a b ≤ c) : b ≤ c := by omega
-
 mutual
 theorem genAnyType_anyOf (e : BEnv) (Γ : Ctx) (cfg : SerCfg) (var : XmlVar) (nil : Bool) :
     ∀ (t : Tree) (fuel : Nat) (ns : Option Str), namesOK t = true → depthTree t ≤ fuel →
